@@ -14,13 +14,14 @@ CONSTANTS Vouchers, AmtClasses, RecvClasses,
 VARIABLES enabled, vbal, esc, sup, tok, registered, pairon,
           ext,    \* ext[d]: the voucher was added (AddCoin) to the pair of the externally-owned ERC-20 X
           xreg,   \* X is registered (RegisterERC20)
+          xbad,   \* the registered external token misbehaves on transfer (takes a cut): conversions into it never complete
           mx,     \* X tokens held by the module account (what it can pay out)
           last
-stateVars == <<enabled, vbal, esc, sup, tok, registered, pairon, ext, xreg, mx>>
+stateVars == <<enabled, vbal, esc, sup, tok, registered, pairon, ext, xreg, xbad, mx>>
 vars == <<stateVars, last>>
 Val(a) == CASE a = "1" -> 1 [] a = "2" -> 2 [] OTHER -> 0
 Init == /\ enabled = TRUE /\ vbal = [d \in Vouchers |-> 0] /\ esc = vbal /\ sup = vbal /\ tok = vbal
-        /\ registered = [d \in Vouchers |-> FALSE] /\ pairon = registered /\ ext = registered /\ xreg = FALSE /\ mx = 0 /\ last = [act |-> "Init", res |-> "ok"]
+        /\ registered = [d \in Vouchers |-> FALSE] /\ pairon = registered /\ ext = registered /\ xreg = FALSE /\ xbad = FALSE /\ mx = 0 /\ last = [act |-> "Init", res |-> "ok"]
 (* the transfer application's verdict *)
 TransferOK(a, r) == a \in {"1", "2"} /\ r = "user"
 Converts(d) == enabled /\ registered[d] /\ pairon[d]
@@ -31,27 +32,28 @@ RecvEff(d, a, r) ==
   ELSE /\ IF Converts(d) /\ ~ext[d]
           THEN /\ sup' = [sup EXCEPT ![d] = @ + Val(a)] /\ esc' = [esc EXCEPT ![d] = @ + Val(a)]
                /\ tok' = [tok EXCEPT ![d] = @ + Val(a)] /\ UNCHANGED <<vbal, mx>>
-          ELSE IF Converts(d) /\ ext[d] /\ mx >= Val(a)
+          ELSE IF Converts(d) /\ ext[d] /\ mx >= Val(a) /\ ~xbad
           THEN /\ tok' = [tok EXCEPT ![d] = @ + Val(a)] /\ mx' = mx - Val(a) /\ UNCHANGED <<vbal, esc, sup>>
           ELSE /\ sup' = [sup EXCEPT ![d] = @ + Val(a)] /\ vbal' = [vbal EXCEPT ![d] = @ + Val(a)] /\ UNCHANGED <<esc, tok, mx>>
-       /\ UNCHANGED <<enabled, registered, pairon, ext, xreg>>
+       /\ UNCHANGED <<enabled, registered, pairon, ext, xreg, xbad>>
 (* what the IBC core commits: "success" | "error" | "none" *)
 Committed(a, r) == IF ~TransferOK(a, r) THEN "error" ELSE IF HookReturnsAck THEN "success" ELSE "none"
 RegisterOK(d) == enabled /\ ~registered[d] /\ sup[d] > 0
 RegisterEff(d) == IF RegisterOK(d) THEN registered' = [registered EXCEPT ![d] = TRUE] /\ pairon' = [pairon EXCEPT ![d] = TRUE]
-                                        /\ UNCHANGED <<enabled, vbal, esc, sup, tok, ext, xreg, mx>>
+                                        /\ UNCHANGED <<enabled, vbal, esc, sup, tok, ext, xreg, xbad, mx>>
                   ELSE UNCHANGED stateVars
 (* RegisterERC20 of X; AddCoin of a voucher to X's pair (at most one voucher, so that X balances belong to it) *)
 RegisterExtOK == enabled /\ ~xreg
-RegisterExtEff == IF RegisterExtOK THEN xreg' = TRUE /\ UNCHANGED <<enabled, vbal, esc, sup, tok, registered, pairon, ext, mx>> ELSE UNCHANGED stateVars
+RegisterExtEff(bad) == IF RegisterExtOK THEN xreg' = TRUE /\ xbad' = bad /\ UNCHANGED <<enabled, vbal, esc, sup, tok, registered, pairon, ext, mx>> ELSE UNCHANGED stateVars
 AddExtOK(d) == enabled /\ xreg /\ ~registered[d] /\ sup[d] > 0 /\ \A e \in Vouchers : ~ext[e]
 AddExtEff(d) == IF AddExtOK(d) THEN /\ registered' = [registered EXCEPT ![d] = TRUE] /\ pairon' = [pairon EXCEPT ![d] = TRUE]
-                                    /\ ext' = [ext EXCEPT ![d] = TRUE] /\ UNCHANGED <<enabled, vbal, esc, sup, tok, xreg, mx>>
+                                    /\ ext' = [ext EXCEPT ![d] = TRUE] /\ UNCHANGED <<enabled, vbal, esc, sup, tok, xreg, xbad, mx>>
                 ELSE UNCHANGED stateVars
-FundEff(n) == mx' = mx + n /\ UNCHANGED <<enabled, vbal, esc, sup, tok, registered, pairon, ext, xreg>>
+(* a misbehaving token also takes its cut of what is handed to the module: somewhere between nothing and n arrives *)
+FundEff(n) == (IF xbad THEN \E g \in 0..n : mx' = mx + g ELSE mx' = mx + n) /\ UNCHANGED <<enabled, vbal, esc, sup, tok, registered, pairon, ext, xreg, xbad>>
 ToggleOK(d) == registered[d]
-ToggleEff(d) == IF ToggleOK(d) THEN pairon' = [pairon EXCEPT ![d] = ~@] /\ UNCHANGED <<enabled, vbal, esc, sup, tok, registered, ext, xreg, mx>> ELSE UNCHANGED stateVars
-ParamEff(on) == enabled' = on /\ UNCHANGED <<vbal, esc, sup, tok, registered, pairon, ext, xreg, mx>>
+ToggleEff(d) == IF ToggleOK(d) THEN pairon' = [pairon EXCEPT ![d] = ~@] /\ UNCHANGED <<enabled, vbal, esc, sup, tok, registered, ext, xreg, xbad, mx>> ELSE UNCHANGED stateVars
+ParamEff(on) == enabled' = on /\ UNCHANGED <<vbal, esc, sup, tok, registered, pairon, ext, xreg, xbad, mx>>
 Res(ok) == IF ok THEN "ok" ELSE "err"
 Next ==
   \/ \E d \in Vouchers, a \in AmtClasses, r \in RecvClasses :
@@ -59,7 +61,7 @@ Next ==
   \/ \E d \in Vouchers : RegisterEff(d) /\ last' = [act |-> "Register", res |-> Res(RegisterOK(d)), denom |-> d]
   \/ \E d \in Vouchers : ToggleEff(d) /\ last' = [act |-> "Toggle", res |-> Res(ToggleOK(d)), denom |-> d]
   \/ \E on \in BOOLEAN : on # enabled /\ ParamEff(on) /\ last' = [act |-> "Param", res |-> "ok", on |-> on]
-  \/ RegisterExtEff /\ last' = [act |-> "RegisterExt", res |-> Res(RegisterExtOK)]
+  \/ \E bad \in BOOLEAN : RegisterExtEff(bad) /\ last' = [act |-> "RegisterExt", res |-> Res(RegisterExtOK), bad |-> bad]
   \/ \E d \in Vouchers : AddExtEff(d) /\ last' = [act |-> "AddExt", res |-> Res(AddExtOK(d)), denom |-> d]
   \/ \E n \in {1, 2} : mx + n <= 3 /\ FundEff(n) /\ last' = [act |-> "Fund", res |-> "ok", n |-> n]
 Spec == Init /\ [][Next]_vars
